@@ -645,8 +645,9 @@ CHECKS["C11"].update({
              "extend_supplied_exact (extension blocks are applied to a supplied type exactly, every kind), buildA_rejects; "
              "build_exact_additional_refuted / supplied_extension_dropped: with extension blocks the statement is FALSE today (finding C11/A1, fix "
              "proposed). IN-PROGRESS DEFAULTS: touches_reach / thunkNeeds_reach / selfDefaults_of_noSelfReach / noThunkCycle_of_noSelfReach / "
-             "build_exact_acyclic_inputs (the `hide` approximation and the S1b thunk cycles need an input object type that reaches itself: for "
-             "documents whose input objects are not recursive the residue of build_exact_spec is BaseDefaults alone); mutual_default_not_completed / "
+             "build_exact_acyclic_inputs / build_exact_defaults_off_cycles (the `hide` approximation and the S1b thunk cycles need an input object "
+             "type WITH A DEFAULTED FIELD that reaches itself: for documents whose defaults sit off the cycles of input objects - recursive input "
+             "objects allowed - the residue of build_exact_spec is BaseDefaults alone, a premise about the document only); mutual_default_not_completed / "
              "h4A_not_selfDefaults / mutual_required_accepted (hunt4 C11-1: the model predicts the stale default and the accepted invalid document); "
              "SdlInProgress.lean buildP = the extension pass with the builder's real _extended_cache / _in_progress bookkeeping (executable "
              "reference, no theorem). SCHEMA DIRECTIVES: used_definitions_are_new / two_phase_directives_once (which parts' directives extend_schema "
@@ -665,7 +666,7 @@ CHECKS["C11"].update({
              "(extend_supplied_exact) - the schema-level statement is refuted by finding C11/A1 until the proposed fix is committed; the public "
              "extend_schema(..., additional_types=) is not modelled. The approximate model (one hidden type) differs from the code on about a fifth of the "
              "documents of the targeted stream (recursive input objects + defaults + extensions; 188 of 1000 measured); buildP agrees on all of them but carries no theorem: the "
-             "theorems hold under SelfDefaults, implied by non-recursive input objects. Only exercised by the correspondence / oracle: the "
+             "theorems hold under SelfDefaults, which the one-hidden-type model can satisfy where the code keeps a stale value (probe finding-H4-defaulted-backref): the statement that is safe to read against the code is build_exact_defaults_off_cycles. Only exercised by the correspondence / oracle: the "
              "APPLICATION of schema_directives (SchemaDirective visitors), Schema objects assembled in Python passed to extend_schema, nodes lists. no_other_branch_partial (vacuous) and "
              "build_exact_partial are kept for name stability and superseded by no_other_branch / build_exact_final. Known findings S8, S1b, S10, "
              "C11/2, C11/3, C11/7, C11/A1 (new), C11/H4-1 (hunt4)."),
